@@ -38,6 +38,8 @@ Judge(ln) ==
        \cup (IF ln.got <= MaxNotes(ln.writes) THEN {} ELSE {"C19_NoneForOthers"})
        \* the stream ends - and the process is still there (a panic in the watcher's goroutines takes it down)
        \cup (IF ln.closed /\ ~ln.crashed THEN {} ELSE {"C19_StreamEnds"})
+       \* the watcher stops at shutdown, whether or not somebody still reads its stream
+       \cup (IF ln.after_cancel <= 0 THEN {} ELSE {"C19_WatcherStops"})
 
 ClassOf(ln) == IF ln.ev = "watcher" THEN (IF ln.cancelled THEN "cancelled-midway" ELSE IF ln.late THEN "late-consumer" ELSE "prompt-consumer") ELSE ln.ev
 Final(tr) == {}
